@@ -43,15 +43,16 @@ def run(ctx):
 
 def poller_model(ctx):
     """Poller.tla: the replication cycle's bookkeeping against a peer with several keyspaces (poll, tracker diff, state transfer
-    as the handler's two steps, one sync per keyspace that may fail, what the tracker remembers).  TLC checks that the tracker never
-    says 'unchanged' while something is missing; the two unsound variations of the module must be told apart."""
-    consts = dict(Keyspaces={'"a"', '"b"'}, MaxMut=4, MaxRounds=3 if ctx.tier == "quick" else 4, StampLast=False, RememberPolled=False, RememberAll=False)
+    as the handler's two steps, one sync per keyspace that may fail or be given up by the progress watcher while its modification half is
+    left to run, what the tracker remembers).  TLC checks that the tracker never
+    says 'unchanged' while something is missing; the unsound variations of the module must be told apart."""
+    consts = dict(Keyspaces={'"a"', '"b"'}, MaxMut=4, MaxRounds=3 if ctx.tier == "quick" else 4, StampLast=False, RememberPolled=False, RememberAll=False, RememberTimedOut=False)
     cfg = vlib.cfg_text(constants=consts, invariants=["TrackerSound", "TrackerBehind"])
     mc, text = vlib.run_tlc(ctx, "Poller", cfg, "mc_poller", workers=4, timeout=1800)
     if not vlib.require_clean_mc(ctx, mc, text, "Poller"):
         raise vlib.ToolError("Poller.tla violates %s: specification error" % mc["violated"])
     told_apart = []
-    for var in ("StampLast", "RememberAll"):
+    for var in ("StampLast", "RememberAll", "RememberTimedOut"):
         c2 = vlib.cfg_text(constants=dict(consts, **{var: True}), invariants=["TrackerSound"])
         r2, _ = vlib.run_tlc(ctx, "Poller", c2, "mc_poller_" + var, workers=4, timeout=1800)
         if "TrackerSound" not in r2["violated"]:
